@@ -117,14 +117,14 @@ def parse_counterexample(out):
 
 # ---------------------------------------------------------------------- batch trace validation
 
-_END = re.compile(r'^<<"END", (-?\d+), (\{.*\})>>\s*$')
+_END = re.compile(r'<<\s*"END",\s*(-?\d+),\s*(\{[^}]*\})\s*>>', re.S)
 
 
 def _parse_set(s):
     s = s.strip()[1:-1].strip()
     if not s:
         return []
-    return [x.strip().strip('"') for x in s.split(',')]
+    return [x.strip().strip('"') for x in s.split(',') if x.strip()]
 
 
 def _validate_shard(module, cfg, path, deque, timeout, consts_env):
@@ -136,10 +136,8 @@ def _validate_shard(module, cfg, path, deque, timeout, consts_env):
     rc, out = _java(args, env=env, timeout=timeout, deque=deque)
     shutil.rmtree(md, ignore_errors=True)
     ends = {}
-    for line in out.splitlines():
-        m = _END.match(line)
-        if m:
-            ends.setdefault(int(m.group(1)), []).append(frozenset(_parse_set(m.group(2))))
+    for m in _END.finditer(out):
+        ends.setdefault(int(m.group(1)), []).append(frozenset(_parse_set(m.group(2))))
     ms = _STATS.findall(out)
     st = (int(ms[-1][0]), int(ms[-1][1])) if ms else (0, 0)
     ok = 'No error has been found' in out
